@@ -11,6 +11,7 @@ import (
 	"fmt"
 	"io"
 	"net"
+	"strings"
 	"sync"
 	"time"
 
@@ -23,7 +24,10 @@ type reply struct {
 	rcode int
 	tc    bool
 	ede   []uint16
-	raw   []byte
+	// timeoutEDE: the reply carries the EDE text the server attaches when
+	// the request's own deadline expired ("Query timeout exceeded")
+	timeoutEDE bool
+	raw        []byte
 }
 
 // qrec is one client query and everything observed about it.
@@ -82,6 +86,9 @@ func (q *qrec) addReply(at time.Time, raw []byte) {
 				for _, o := range opt.Option {
 					if e, ok := o.(*dns.EDNS0_EDE); ok {
 						r.ede = append(r.ede, e.InfoCode)
+						if strings.Contains(e.ExtraText, timeoutEDEText) {
+							r.timeoutEDE = true
+						}
 					}
 				}
 			}
@@ -217,6 +224,41 @@ type tcpConn struct {
 	weClosed    bool
 	stray       int
 	done        chan struct{}
+
+	// per-CONNECTION account (the unit the server sheds TCP work in: one
+	// refused connection / one job-wait drop = one counter increment, however
+	// many frames the client had already written into the socket)
+	queries      int       // queries written (or attempted) on this connection
+	replies      int       // frames received that answered one of them
+	forCloser    bool      // carries a client that walks away mid-flight
+	serverClosed bool      // the read side ended while we had not closed it
+	closedAt     time.Time // when the read side ended
+	cutQueries   int       // queries outstanding and unanswered when the server closed
+	writeFailed  bool      // a write failed (the server had already reset the connection)
+	openedAt     time.Time
+}
+
+// tcpConnStat is the serialisable per-connection summary.
+type tcpConnStat struct {
+	Src          string  `json:"src"`
+	Queries      int     `json:"queries"`
+	Replies      int     `json:"replies"`
+	Closer       bool    `json:"closer,omitempty"`
+	ServerClosed bool    `json:"server_closed,omitempty"`
+	CutQueries   int     `json:"cut_queries,omitempty"`
+	WriteFailed  bool    `json:"write_failed,omitempty"`
+	LifeMs       float64 `json:"life_ms,omitempty"` // dial → server close
+}
+
+func (t *tcpConn) stat() tcpConnStat {
+	t.mu.Lock()
+	defer t.mu.Unlock()
+	st := tcpConnStat{Src: t.src, Queries: t.queries, Replies: t.replies, Closer: t.forCloser,
+		ServerClosed: t.serverClosed, CutQueries: t.cutQueries, WriteFailed: t.writeFailed}
+	if t.serverClosed {
+		st.LifeMs = float64(t.closedAt.Sub(t.openedAt).Microseconds()) / 1000
+	}
+	return st
 }
 
 func dialTCP(srcIP, server string, timeout time.Duration) (*tcpConn, error) {
@@ -226,7 +268,7 @@ func dialTCP(srcIP, server string, timeout time.Duration) (*tcpConn, error) {
 		return nil, err
 	}
 	t := &tcpConn{c: c, src: srcIP, byID: map[uint16]*qrec{}, outstanding: map[uint16]*qrec{},
-		nextID: 1, lastUse: time.Now(), claimed: true, done: make(chan struct{})}
+		nextID: 1, lastUse: time.Now(), claimed: true, done: make(chan struct{}), openedAt: time.Now()}
 	go t.readLoop()
 	return t, nil
 }
@@ -246,10 +288,13 @@ func (t *tcpConn) readLoop() {
 			t.mu.Lock()
 			t.dead = true
 			if !t.weClosed {
+				t.serverClosed = true
+				t.closedAt = now
 				for _, q := range t.outstanding {
 					q.mu.Lock()
 					if len(q.replies) == 0 {
 						q.connClosed = true
+						t.cutQueries++
 					}
 					q.mu.Unlock()
 				}
@@ -266,6 +311,7 @@ func (t *tcpConn) readLoop() {
 			t.stray++
 		} else {
 			delete(t.outstanding, q.ID)
+			t.replies++
 		}
 		t.lastUse = now
 		t.mu.Unlock()
@@ -286,6 +332,10 @@ func (t *tcpConn) send(qs ...*qrec) {
 		binary.BigEndian.PutUint16(q.pkt, q.ID)
 		t.byID[q.ID] = q
 		t.outstanding[q.ID] = q
+		t.queries++
+		if q.Closer {
+			t.forCloser = true
+		}
 		q.Src = t.src
 		var l [2]byte
 		binary.BigEndian.PutUint16(l[:], uint16(len(q.pkt)))
@@ -294,15 +344,29 @@ func (t *tcpConn) send(qs ...*qrec) {
 	}
 	t.lastUse = time.Now()
 	t.claimed = false
+	// The server may have closed the connection (refused at the cap: accept,
+	// close) before this first write: the reader has then already seen the
+	// end of the stream with nothing outstanding. These queries are written
+	// into a connection that is gone — cut, like those outstanding at close.
+	alreadyCut := t.dead && !t.weClosed
+	if alreadyCut {
+		t.cutQueries += len(qs)
+	}
 	t.mu.Unlock()
 	now := time.Now()
 	for _, q := range qs {
 		q.mu.Lock()
 		q.sentAt = now
+		if alreadyCut {
+			q.connClosed = true
+		}
 		q.mu.Unlock()
 	}
 	_ = t.c.SetWriteDeadline(time.Now().Add(5 * time.Second))
 	if _, err := t.c.Write(frame); err != nil {
+		t.mu.Lock()
+		t.writeFailed = true
+		t.mu.Unlock()
 		for _, q := range qs {
 			q.mu.Lock()
 			q.sendErr = err.Error()
@@ -441,6 +505,18 @@ func (c *clients) strays() (udp, tcp int) {
 		t.mu.Unlock()
 	}
 	return
+}
+
+// tcpStats returns the per-connection account of every TCP connection dialled.
+func (c *clients) tcpStats() []tcpConnStat {
+	c.mu.Lock()
+	conns := append([]*tcpConn(nil), c.tcp...)
+	c.mu.Unlock()
+	out := make([]tcpConnStat, 0, len(conns))
+	for _, t := range conns {
+		out = append(out, t.stat())
+	}
+	return out
 }
 
 func (c *clients) closeAll() {
